@@ -180,3 +180,50 @@ Definition eval_cfg (raw : str) (d : cfgs) : result :=
         end
     end
   else Ok false.
+
+(* ------------------------------------------------------------------ *)
+(* the caller: Interpreter._get_cfgs / _split_cfg (interpreter.py:701-719): the lines of
+   `rustc --print cfg` plus the arguments that follow a --cfg in rust_args are turned
+   into the dict eval_cfg receives *)
+
+(* cfg.split('=', maxsplit=1) *)
+Fixpoint break_eq (s : str) (racc : str) : str * option str :=
+  match s with
+  | [] => (rev racc, None)
+  | c :: r => if c =? c_eq then (rev racc, Some r) else break_eq r (c :: racc)
+  end.
+(* _split_cfg *)
+Definition split_cfg (s : str) : str * str :=
+  match break_eq s [] with
+  | (k, None) => (k, [])
+  | (k, Some v) =>
+      match v with
+      | c :: r => if c =? c_quote then (k, removelast r) else (k, v)     (* value[1:-1] *)
+      | [] => (k, [])
+      end
+  end.
+(* dict(pairs): a later pair overwrites the value of an earlier one with the same key *)
+Fixpoint dict_set (k v : str) (d : cfgs) : cfgs :=
+  match d with
+  | [] => [(k, v)]
+  | (k', v') :: r => if str_eqb k k' then (k', v) :: r else (k', v') :: dict_set k v r
+  end.
+Definition dict_of (ps : list (str * str)) : cfgs :=
+  fold_left (fun d p => dict_set (fst p) (snd p) d) ps [].
+(* the --cfg scan; None = next() on the exhausted iterator (StopIteration escapes) *)
+Fixpoint cfg_flags (flags : list str) : option (list str) :=
+  match flags with
+  | [] => Some []
+  | f :: r =>
+      if str_eqb f (s2l "--cfg") then
+        match r with
+        | [] => None
+        | x :: r' => match cfg_flags r' with Some l => Some (x :: l) | None => None end
+        end
+      else cfg_flags r
+  end.
+Definition get_cfgs (lines flags : list str) : option cfgs :=
+  match cfg_flags flags with
+  | None => None
+  | Some extra => Some (dict_of (map split_cfg (lines ++ extra)))
+  end.
